@@ -15,7 +15,7 @@ const PropertyInfo kInfo = {
     "One corruption per case: none, replica bit flip at a generated offset / truncate / extend / swap with another chunk's ciphertext / empty, manifest hash / nonce / chunk id "
     "bit flip, one shard value flipped (inside or beyond the first t), shard index moved to an unused index, threshold +-1, two shards swapped. Oracle: fetch_chunk on the "
     "publisher == payload; stored bytes == reference ChaCha20(payload) under key = reference GF(256) interpolation of the manifest shares, manifest nonce, counter LE32(id[0..3]); "
-    "the CLI decrypt helper returns the payload; receive_chunk on the second node returns a value iff the independent acceptance predicate holds (sha256(reference decrypt) == "
+    "the CLI decrypt helper returns the payload; receive_chunk on the second node and the CLI's decrypt helper (given the possibly corrupted replica + manifest) returns a value iff the independent acceptance predicate holds (sha256(reference decrypt) == "
     "manifest hash and admissible shares), and then returns exactly the payload, fetch_chunk agrees and the node announces itself; otherwise it returns nothing and the second "
     "node's chunk store and locators stay empty. Non-trivial: payload >= 2 blocks, or a corruption that keeps the length."};
 
@@ -160,6 +160,23 @@ void run_case(Ctx& c) {
     if (auto k2 = ref_combine(m2)) {
         ref_plain = refs::chacha20(k2->data(), m2.nonce.bytes.data(), counter_of(m2.chunk_id), data.data(), data.size());
         predicate = refs::sha256(ref_plain) == m2.chunk_hash;
+    }
+
+    // the fetching side of the CLI applies the same acceptance rule to what a peer sent it
+    {
+        std::optional<std::vector<std::uint8_t>> cli;
+        bool cli_threw = false;
+        try {
+            cli = shim_main::cli_decrypt_chunk_with_manifest_uri(uri, data);
+        } catch (const std::exception&) {
+            cli_threw = true;   // judged under C35 / C18; here: not accepted
+        }
+        if (predicate) {
+            if (cli_threw || !cli.has_value()) c.fail("C11:cli-rejects-genuine-replica", std::string("the CLI's decrypt_chunk_with_manifest refused a replica that decrypts to the manifest's content hash (") + what + ")");
+            if (*cli != ref_plain) c.fail("C11:cli-decrypt-mismatch", "the CLI's decrypt_chunk_with_manifest returned bytes different from the reference decryption");
+        } else if (cli.has_value()) {
+            c.fail("C11:cli-accepts-tampered-replica", std::string("the CLI's decrypt_chunk_with_manifest returned a value for a replica/manifest pair that does not hash to the manifest's content hash (") + what + ")");
+        }
     }
 
     Node second(vnode::make_id(202, 0x12), sc);
